@@ -16,6 +16,7 @@ import (
 	"os"
 	"path/filepath"
 	"sort"
+	"strconv"
 	"strings"
 	"testing"
 
@@ -413,6 +414,7 @@ type VCase struct {
 	Commented bool   // -comment-verilog
 	Board     string `json:",omitempty"` // -verilog-flavor <board> -verilog-mapfile (a flavour that writes bondmachine_main.v); CLI entry only
 	BMAPI     string `json:",omitempty"` // -use-bmapi -bmapi-flavor uartusb|aximm with every external port mapped; needs Board
+	Uarts     int    `json:",omitempty"` // the machine has this many uart shared objects (attached to processor 0) and -uart -uart-mapfile maps their pins; needs Board
 	Runs      int
 	Probe     bool
 }
@@ -424,6 +426,14 @@ func (c VCase) boardArgs() (args []string, files []SrcFile) {
 	}
 	args = append(args, "-verilog-flavor", c.Board, "-verilog-mapfile", "map.json")
 	files = append(files, SrcFile{"map.json", `{"Assoc":{"clk":"clk","reset":"btnC"}}`})
+	if c.Uarts > 0 {
+		var pins []string
+		for u := 0; u < c.Uarts; u++ {
+			pins = append(pins, fmt.Sprintf(`"uart%d_rx":"JA%d"`, u, 2*u), fmt.Sprintf(`"uart%d_tx":"JA%d"`, u, 2*u+1))
+		}
+		files = append(files, SrcFile{"uart.json", `{"Assoc":{` + strings.Join(pins, ",") + `}}`})
+		args = append(args, "-uart", "-uart-mapfile", "uart.json")
+	}
 	if c.BMAPI == "" {
 		return
 	}
@@ -468,6 +478,13 @@ func genVCase(runs func() int) func(t *rapid.T) VCase {
 		if err != nil {
 			t.Fatalf("gen.Build: %v", err)
 		}
+		if c.Board != "" {
+			c.Uarts = rapid.SampledFrom([]int{0, 0, 1, 2}).Draw(t, "uarts")
+			for u := 0; u < c.Uarts; u++ {
+				bm.Add_shared_objects([]string{"uart:115200:4"})
+				bm.Connect_processor_shared_object([]string{"0", strconv.Itoa(u)})
+			}
+		}
 		b, _ := json.Marshal(bm.Jsoner())
 		c.BM, c.Source = string(b), "handshake"
 		return c
@@ -483,7 +500,7 @@ func (c VCase) procs() int {
 func (c VCase) labels() []string {
 	l := []string{"source=" + c.Source, fmt.Sprintf("sim=%v", c.Sim), fmt.Sprintf("commented=%v", c.Commented), fmt.Sprintf("procs=%d", min(c.procs(), 4))}
 	if c.Board != "" {
-		l = append(l, "board", "bmapi="+c.BMAPI)
+		l = append(l, "board", "bmapi="+c.BMAPI, fmt.Sprintf("uarts=%d", c.Uarts))
 	}
 	return l
 }
@@ -557,7 +574,7 @@ func propCliHDL(c VCase) pbt.Outcome {
 	return out
 }
 
-const vRule = "machine JSON from gen.Build(gen.HandshakeMachine(1..4 processors)) or from the in-process assembly of a generated BASM source; `bondmachine -bondmachine-file bm.json -create-verilog` with the iverilog flavour, optionally -verilog-simulation -simbox-file (empty simbox) and -comment-verilog; one case in three (CLI entry) uses a board flavour (basys3, zedboard, ebaz4205, zc702, kc705: the ones that write bondmachine_main.v) with a clk/reset map file, optionally with -use-bmapi -bmapi-flavor uartusb|aximm and every external port mapped (library, module and auxiliary outputs included in the comparison); oracle: byte equality of every emitted .v file (and exit status / masked stderr); non-trivial = >= 2 non-empty .v files and >= 2 processors (processor, ROM/RAM and link tables each have >= 2 entries)"
+const vRule = "machine JSON from gen.Build(gen.HandshakeMachine(1..4 processors)) or from the in-process assembly of a generated BASM source; `bondmachine -bondmachine-file bm.json -create-verilog` with the iverilog flavour, optionally -verilog-simulation -simbox-file (empty simbox) and -comment-verilog; one case in three (CLI entry) uses a board flavour (basys3, zedboard, ebaz4205, zc702, kc705: the ones that write bondmachine_main.v) with a clk/reset map file, optionally with -use-bmapi -bmapi-flavor uartusb|aximm and every external port mapped (library, module and auxiliary outputs included in the comparison), and for handshake machines optionally 1..2 uart shared objects with -uart -uart-mapfile naming their pins; oracle: byte equality of every emitted .v file (and exit status / masked stderr); non-trivial = >= 2 non-empty .v files and >= 2 processors (processor, ROM/RAM and link tables each have >= 2 entries)"
 
 const basmRule = "BASM sources synthesised from a grammar (1..5 code sections with labels, entry, rset/inc/add/mult/cpy/mov/jz/j bodies, rom/ram accesses, 0..3 data sections, 0..3 macros, 1..5 CPs sharing sections, an IO network; and/or 1..4 fragments (plain and templated), 1..6 instances in a DAG, links, CPs with fragcollapse lists), literals in every bmnumbers notation over-sampled at 10/100, optional second input file, chooser/pass/optimization flags; oracle: byte equality of machine JSON, BCOF, requirement dump, bminfo (and, CLI tier, stdout/stderr/exit status) between executions; non-trivial = a machine was produced and at least two of the collections {sections, fragments, macros, cpdefs, iodefs, fidefs, filinkdefs} have >= 2 entries"
 
